@@ -2,7 +2,7 @@
 (every condition occurrence made to fail in turn).  DESIGN §4 C08."""
 from ..common import import_sismic
 from ..gen import HKINDS, Tree, chart_digest, gen_chart
-from ..lockstep import Runner, gen_script
+from ..lockstep import benign, Runner, gen_script
 from ..probes import Probes, make_val
 from .. import build
 
@@ -469,6 +469,10 @@ def run_case(acc, rnd, tier, case):
             if isinstance(r.last_error, ContractError):
                 acc.violation('C08:contract-error-without-fault', 'fault-free run raised %s at step %d' %
                               (type(r.last_error).__name__, k), wit)
+                return
+            if not benign(r.last_error):
+                acc.violation('C08:unexpected-exception', 'fault-free run: step %d raised %s: %s (conditions and code of the generated '
+                              'charts only call probes)' % (k, type(r.last_error).__name__, str(r.last_error)[:200].replace('\n', ' ')), wit)
                 return
             break       # non-determinism etc.: not this property's business, the run stops here
         msg, occ = check_grammar(ch, tr, sc, tmap, r.last_step, list(pr.log), it.configuration, vstate)
